@@ -675,7 +675,8 @@ theorem removeAttribute_inv {h : Heap} (hI : Inv h) (e : Id) (k t a : Bool) (key
 theorem inv_step {h : Heap} (hI : Inv h) (op : Op) : Inv ((step op).run h).1 := by
   cases op with
   | newNode i k qn =>
-    simp only [step, fresh]
+    simp only [step]
+    rw [run_bind, fresh_run]
     by_cases hb : Blank h i
     · simpa [hb, initNode_run] using initNode_inv hI hb k qn
     · simpa [hb] using hI
@@ -684,12 +685,14 @@ theorem inv_step {h : Heap} (hI : Inv h) (op : Op) : Inv ((step op).run h).1 := 
   | remove p c => exact removeChild_inv hI p c
   | addElement p c a => exact addElement_inv hI p c a
   | addText p t a ne =>
-    simp only [step, fresh]
+    simp only [step]
+    rw [run_bind, fresh_run]
     by_cases hb : Blank h t
     · simpa [hb] using addText_inv hI p t a ne hb
     · simpa [hb] using hI
   | addCDATA p t a =>
-    simp only [step, fresh]
+    simp only [step]
+    rw [run_bind, fresh_run]
     by_cases hb : Blank h t
     · simpa [hb] using addCDATA_inv hI p t a hb
     · simpa [hb] using hI
@@ -710,5 +713,144 @@ theorem inv_empty : Inv Heap.empty := by
     the tree is consistent. -/
 theorem inv_reachable (ops : List Op) : Inv (runOps Heap.empty ops) :=
   inv_runOps inv_empty ops
+
+/-! ### refinement to plain child lists; moving; not-found -/
+
+theorem count_eq_one_of_mem {l : List Id} {a : Id} (hn : l.Nodup) (hm : a ∈ l) : l.count a = 1 := by
+  have h1 := List.nodup_iff_count.mp hn a
+  have h2 := List.count_pos_iff.mpr hm
+  omega
+
+/-- detaching `c` erases it from every child list (it is in at most one) -/
+theorem detach_kids {h : Heap} (hI : Inv h) (c q : Id) : (detach h c q).kids = (h q).kids.erase c := by
+  have hnot : ∀ q, (h c).parent ≠ some q → (h q).kids.erase c = (h q).kids := by
+    intro q hq
+    exact List.erase_of_not_mem (fun hm => hq ((hI.parent_iff q c).mp hm))
+  unfold detach
+  split
+  · rename_i q0 hq0
+    rw [rmHeap_kids]
+    split
+    · rename_i e; rw [e]
+    · rename_i e; rw [hnot q (by rw [hq0]; exact fun e' => e (Option.some.inj e').symm)]
+  · rename_i hq0
+    rw [hnot q (by rw [hq0]; exact fun e => by cases e)]
+
+/-- under the invariant `appendChild` to an element succeeds; its result -/
+theorem appendChild_ok {h : Heap} (hI : Inv h) {p : Id} (hk : (h p).kind = .elem) (c : Id) :
+    (appendChild p c).run h = (setNext (appRawHeap (detach h c) p c) c none, .ok ()) := by
+  rw [appendChild_run]; simp [hk, hI.detachOk c]
+
+/-- **C08 (children lists after appendChild)**: the list-only reference — the child is erased
+    from wherever it was and put last under `p` -/
+theorem appendChild_kids {h : Heap} (hI : Inv h) {p : Id} (hk : (h p).kind = .elem) (c q : Id) :
+    (((appendChild p c).run h).1 q).kids =
+      if q = p then (h p).kids.erase c ++ [c] else (h q).kids.erase c := by
+  rw [appendChild_ok hI hk, app_kids]
+  split
+  · rw [detach_kids hI]
+  · rw [detach_kids hI]
+
+/-- under the invariant `insertBefore` an existing child of an element succeeds; its result -/
+theorem insertBefore_ok {h : Heap} (hI : Inv h) {p n r : Id} (hk : (h p).kind = .elem)
+    (hr : r ∈ (h p).kids) (hne : r ≠ n) :
+    (insertBefore p n (some r)).run h = (insHeap (detach h n) p n r, .ok ()) := by
+  rw [insertBefore_run]
+  have hro : RefOk h p (some r) := by intro r' e; cases e; exact hr
+  have h1 : ¬ (some r = some n) := fun e => hne (Option.some.inj e)
+  simp [hk, hro, hI.detachOk n, hne]
+
+/-- **C08 (children lists after insertBefore)**: erased from wherever it was, then placed
+    directly before the reference child -/
+theorem insertBefore_kids {h : Heap} (hI : Inv h) {p n r : Id} (hk : (h p).kind = .elem)
+    (hr : r ∈ (h p).kids) (hne : r ≠ n) (q : Id) :
+    (((insertBefore p n (some r)).run h).1 q).kids =
+      if q = p then ((h p).kids.erase n).insertIdx (((h p).kids.erase n).idxOf r) n
+      else (h q).kids.erase n := by
+  rw [insertBefore_ok hI hk hr hne]
+  have hr' : r ∈ (detach h n p).kids := mem_kids_detach h n p r hr hne
+  obtain ⟨l1, l2, hsplit⟩ := List.append_of_mem hr'
+  have hnd := (detach_inv hI n).nodup p
+  rw [hsplit] at hnd
+  have hr1 : r ∉ l1 := fun hm => (List.nodup_append.mp hnd).2.2 r hm r (by simp) rfl
+  rw [ins_kids (detach h n) p n r q l1 l2 hsplit hr1]
+  split
+  · rw [← detach_kids hI n p, hsplit, idxOf_split l1 l2 r hr1, insertIdx_split]
+  · rw [detach_kids hI]
+
+/-- **C08 (moving a node takes it out of its old position)**: after `p.appendChild(c)` for a
+    node that was a child of `q0`, `c` is listed under `p` only, exactly once, as last child, and
+    the old parent's list is the old list without `c` -/
+theorem move_leaves_old_position {h : Heap} (hI : Inv h) {p c q0 : Id} (hk : (h p).kind = .elem)
+    (_hold : (h c).parent = some q0) :
+    let h' := ((appendChild p c).run h).1
+    (∀ q, c ∈ (h' q).kids ↔ q = p) ∧ (h' p).kids.count c = 1 ∧
+    (h' p).kids.getLast? = some c ∧ (q0 ≠ p → (h' q0).kids = (h q0).kids.erase c) := by
+  intro h'
+  have hI' : Inv h' := appendChild_inv hI p c
+  have hpar : (h' c).parent = some p := by
+    show (((appendChild p c).run h).1 c).parent = some p
+    rw [appendChild_ok hI hk, app_parent]; simp
+  have hkp : (h' p).kids = (h p).kids.erase c ++ [c] := by
+    have := appendChild_kids hI hk c p; simpa using this
+  refine ⟨?_, ?_, ?_, ?_⟩
+  · intro q; rw [hI'.parent_iff q c, hpar]
+    constructor
+    · intro e; exact (Option.some.inj e).symm
+    · intro e; rw [e]
+  · exact count_eq_one_of_mem (hI'.nodup p) ((hI'.parent_iff p c).mpr hpar)
+  · rw [hkp]; simp
+  · intro hne
+    have := appendChild_kids hI hk c q0
+    simpa [hne] using this
+
+/-- **C08 (moving with insertBefore)**: after `p.insertBefore(n, r)` the moved node is listed under
+    `p` only, exactly once, immediately before `r`; any other old parent has lost it -/
+theorem move_leaves_old_position_insertBefore {h : Heap} (hI : Inv h) {p n r q0 : Id}
+    (hk : (h p).kind = .elem) (hr : r ∈ (h p).kids) (hne : r ≠ n) (_hold : (h n).parent = some q0) :
+    let h' := ((insertBefore p n (some r)).run h).1
+    (∀ q, n ∈ (h' q).kids ↔ q = p) ∧ (h' p).kids.count n = 1 ∧
+    (h' n).next = some r ∧ (h' r).prev = some n ∧ (q0 ≠ p → (h' q0).kids = (h q0).kids.erase n) := by
+  intro h'
+  have hI' : Inv h' := insertBefore_inv hI p n (some r)
+  have hr' : r ∈ (detach h n p).kids := mem_kids_detach h n p r hr hne
+  obtain ⟨l1, l2, hsplit⟩ := List.append_of_mem hr'
+  have hnd := (detach_inv hI n).nodup p
+  rw [hsplit] at hnd
+  have hr1 : r ∉ l1 := fun hm => (List.nodup_append.mp hnd).2.2 r hm r (by simp) rfl
+  have hn_nowhere : n ∉ (detach h n p).kids := by
+    intro hq
+    have := ((detach_inv hI n).parent_iff p n).mp hq
+    rw [detach_parent_self] at this; cases this
+  have hn1 : n ∉ l1 := fun hm => hn_nowhere (by rw [hsplit]; simp [hm])
+  have hrun : h' = insHeap (detach h n) p n r := by
+    show ((insertBefore p n (some r)).run h).1 = _
+    rw [insertBefore_ok hI hk hr hne]
+  have hpar : (h' n).parent = some p := by
+    rw [hrun, ins_parent (detach h n) p n r n l1 l2 hsplit hr1]; simp
+  refine ⟨?_, ?_, ?_, ?_, ?_⟩
+  · intro q; rw [hI'.parent_iff q n, hpar]
+    constructor
+    · intro e; exact (Option.some.inj e).symm
+    · intro e; rw [e]
+  · exact count_eq_one_of_mem (hI'.nodup p) ((hI'.parent_iff p n).mpr hpar)
+  · rw [hrun, ins_next (detach h n) p n r n l1 l2 hsplit hr1 hn1]; simp
+  · rw [hrun, ins_prev (detach h n) p n r r l1 l2 hsplit hr1]; simp [hne]
+  · intro hne'
+    have := insertBefore_kids hI hk hr hne q0
+    simpa [hne'] using this
+
+/-- **C08 (removing a non-child raises NotFoundErr)** and leaves everything as it was -/
+theorem not_child_raises_NotFound {h : Heap} {p c : Id} (hc : c ∉ (h p).kids) :
+    (removeChild p c).run h = (h, .error .NotFound) := by
+  rw [removeChild_run]; simp [hc]
+
+/-- **C08 (inserting before a non-child raises NotFoundErr)** and leaves everything as it was —
+    in particular the new child keeps its old place -/
+theorem not_child_raises_NotFound_insertBefore {h : Heap} {p n r : Id} (hk : (h p).kind = .elem)
+    (hr : r ∉ (h p).kids) : (insertBefore p n (some r)).run h = (h, .error .NotFound) := by
+  rw [insertBefore_run]
+  have hro : ¬ RefOk h p (some r) := fun hh => hr (hh r rfl)
+  simp [hk, hro]
 
 end OdfModel.Props.C08
